@@ -226,7 +226,9 @@ def grid_shard(cells, r, b, p):
     big = list(range(-20, 21))
     small = list(range(-3, 4))
     for name, ts in cells:
-        pools = [big if t in "Ff" else [0, 1] if t == "B" else small for t in ts]
+        # integer constants: small ones, and ones whose scaled form no longer fits the bitlength (n * 2^r >= 2^b)
+        wide = small + [1 << max(1, b - r), (1 << max(1, b - r)) + 44] if name in ("mod", "floordiv", "divmod", "truediv", "mul") else small
+        pools = [big if t in "Ff" else [0, 1] if t == "B" else (wide if t == "i" else small) for t in ts]
         for vals in itertools.product(*pools):
             args = [mkarg(t, v, r, i) for i, (t, v) in enumerate(zip(ts, vals))]
             res, prog = judge(cfg, name, args)
